@@ -34,7 +34,11 @@ func init() {
 var c12Seq uint64
 var c12WarmOnce sync.Once
 
-const c12InitTimeout = 250 * time.Millisecond
+// InitializeTimeout: long wherever the outcome does not depend on it (so that a loaded machine cannot turn a good
+// handshake into a timeout); shorter only where the scripted peer stays silent and the timeout IS the expected outcome,
+// and even there far above the time the script itself needs (n x 40 ms).
+const c12InitTimeout = 5 * time.Second
+const c12SilentTimeout = 1200 * time.Millisecond
 
 type c12Run struct {
 	prefix string
@@ -357,7 +361,8 @@ func c12CloseSession(s *Session) {
 		return
 	}
 	s.Close()
-	for i := 0; i < 400 && s.queueManager != nil; i++ {
+	// the clean-up is posted to the event loop, which runs posted work at the latest one second later when idle
+	for t0 := time.Now(); time.Since(t0) < 6*time.Second && s.queueManager != nil; {
 		time.Sleep(500 * time.Microsecond)
 	}
 	time.Sleep(2 * time.Millisecond)
@@ -370,7 +375,7 @@ func (c *c12Run) scenario(f []string) string {
 	fd0, maps0 := c12CountFds(), c12CountMaps(c.prefix)
 	out := c.run(f)
 	// S (C12): whatever happened, nothing is left behind once the sessions are closed
-	for i := 0; i < 500; i++ {
+	for t0 := time.Now(); time.Since(t0) < 6*time.Second; {
 		runtime.GC()
 		if c12CountFds() <= fd0 && c12CountMaps(c.prefix) <= maps0 && c12CountFiles(c.prefix) == 0 {
 			break
@@ -401,10 +406,10 @@ func (c *c12Run) run(f []string) string {
 		f1.Close()
 		chC := c12Start(c12Config(c.prefix, mt), ca, true)
 		chS := c12Start(c12Config(c.prefix+"_srv", mt), cb, false)
-		rc, okc := c12Wait(chC, 3*time.Second)
-		rs, oks := c12Wait(chS, 3*time.Second)
+		rc, okc := c12Wait(chC, 8*time.Second)
+		rs, oks := c12Wait(chS, 8*time.Second)
 		if !okc || !oks {
-			c.setFail("handshake-hangs", "newSession did not return within 3 s (InitializeTimeout is 250 ms)")
+			c.setFail("handshake-hangs", "newSession did not return within 8 s (InitializeTimeout is 5 s)")
 			return "hang"
 		}
 		same := 0
@@ -434,7 +439,11 @@ func (c *c12Run) run(f []string) string {
 		}
 		own := &c12Owned{}
 		fk := &c12Fake{fd: raw}
-		ch := c12Start(c12Config(c.prefix, MemMapTypeMemFd), conn, false)
+		cfgS := c12Config(c.prefix, MemMapTypeMemFd)
+		if f[1] == "silent" {
+			cfgS.InitializeTimeout = c12SilentTimeout
+		}
+		ch := c12Start(cfgS, conn, false)
 		out := c.drive(fk, ch, f[2:], f[1], own, "s")
 		return out
 	case len(f) >= 3 && f[0] == "cli" && (f[1] == "file" || f[1] == "memfd") && (f[2] == "eof" || f[2] == "silent"):
@@ -449,7 +458,11 @@ func (c *c12Run) run(f []string) string {
 		}
 		own := &c12Owned{}
 		fk := &c12Fake{fd: raw}
-		ch := c12Start(c12Config(c.prefix, mt), conn, true)
+		cfgC := c12Config(c.prefix, mt)
+		if f[2] == "silent" {
+			cfgC.InitializeTimeout = c12SilentTimeout
+		}
+		ch := c12Start(cfgC, conn, true)
 		return c.drive(fk, ch, f[3:], f[2], own, "c")
 	}
 	return "bad-op"
@@ -490,9 +503,13 @@ func (c *c12Run) drive(fk *c12Fake, ch chan c12Res, msgs []string, tail string, 
 		c.tags["peer-silent"] = true
 	}
 	if !done {
-		r, ok := c12Wait(ch, c12InitTimeout+2*time.Second)
+		limit := c12InitTimeout
+		if tail == "silent" {
+			limit = c12SilentTimeout
+		}
+		r, ok := c12Wait(ch, limit+2*time.Second)
 		if !ok {
-			c.setFail("handshake-hangs", fmt.Sprintf("newSession (%s) did not return within %v of its InitializeTimeout (%v)", role, 2*time.Second, c12InitTimeout))
+			c.setFail("handshake-hangs", fmt.Sprintf("newSession (%s) did not return within %v of its InitializeTimeout (%v)", role, 2*time.Second, limit))
 			syscall.Close(fk.fd)
 			return role + "=hang"
 		}
